@@ -55,8 +55,8 @@ def check_call(scn: dict, cf, out: list) -> None:
         post = list(a.post())
         if a.kind == "ok":
             # R4: a success ends the run at once
-            bad = [e["ev"] for e in post if e["ev"] in ("SLEEP_BEGIN", "STRATEGY", "BUDGET", "HANDLER", "BEFORE_SLEEP", "CLASSIFY")
-                   or (e["ev"] in ("METRIC", "LOG") and e["event"] not in ("success",) and not e["event"].startswith("circuit_"))]
+            bad = [e["ev"] for e in post if e["ev"] in ("SLEEP_BEGIN", "STRATEGY", "BUDGET", "HANDLER", "BEFORE_SLEEP")
+                   or (e["ev"] in ("METRIC", "LOG") and e["event"] == "retry")]
             if nxt is not None or bad:
                 out.append(V("R4", f"activity after success ({'attempt' if nxt else bad[0]})",
                              {"call": cf.cid, "attempt": a.k, "entry": entry, "after": bad, "next_attempt": nxt is not None}))
